@@ -2,7 +2,10 @@ use std::cell::RefCell;
 use std::collections::HashMap;
 use std::net;
 use std::rc::Rc;
+#[cfg(not(uflow_verif))]
 use std::time;
+#[cfg(uflow_verif)]
+use crate::verif::vtime as time;
 
 use crate::EndpointConfig;
 use crate::frame::serial::Serialize;
@@ -13,6 +16,9 @@ use crate::MAX_FRAME_WINDOW_SIZE;
 use crate::MAX_PACKET_WINDOW_SIZE;
 use crate::PROTOCOL_VERSION;
 use crate::udp_frame_sink::UdpFrameSink;
+
+#[cfg(uflow_verif)]
+use crate::verif::vrand as rand;
 
 mod event_queue;
 mod remote_client;
